@@ -14,9 +14,9 @@ SPEC = dict(
         G('vs', [
             I('idfeat_ref_2_0', 'h_idfeat_ref', (2, 0)), I('idfeat_ref_1_1', 'h_idfeat_ref', (1, 1)), I('idfeat_ref_0_3', 'h_idfeat_ref', (0, 3)),
             I('idfeat_ref_2_3', 'h_idfeat_ref', (2, 3)),
-            I('feat_iff_3_3', 'h_feat_iff', (3, 3)), I('feat_iff_3_2', 'h_feat_iff', (3, 2)), I('feat_iff_3_1', 'h_feat_iff', (3, 1)),
+            I('feat_iff_3_3', 'h_feat_iff', (3, 3, 1)), I('feat_iff_3_2', 'h_feat_iff', (3, 2, 1)), I('feat_iff_3_1', 'h_feat_iff', (3, 1, 1)), I('feat_iff_2_2_noid', 'h_feat_iff', (2, 2, 0)),
             I('id_iff_2_2', 'h_id_iff', (2, 2)), I('id_iff_2_1', 'h_id_iff', (2, 1)),
-            I('form_ref_2f', 'h_form_ref', (0, 0, 2, 1, 2)),
+            I('form_ref_2f', 'h_form_ref', (1, 0, 2, 1, 2, 1, 1)),
         ]),
     ],
     bounds=[], assumptions=[], outside=[],
